@@ -730,6 +730,17 @@ class Interp(Engine):
                 yield st, self.bit_and(a, b2, st)
             elif isinstance(op, ast.BitOr) and is_concrete(a) and is_concrete(b2):
                 yield st, a | b2
+            elif isinstance(op, (ast.RShift, ast.LShift)):
+                # x >> k == x // 2**k (floor, as in Python for every sign of x), x << k == x * 2**k ; k < 0 raises
+                for s2, neg in self.branch(st, y < 0, "L%s:shift-count" % getattr(e, 'lineno', '?')):
+                    if neg:
+                        yield s2, Raised(ExcVal(ValueError))
+                        continue
+                    p2 = self.power(2, b2, s2)
+                    if isinstance(op, ast.LShift):
+                        yield s2, V(x * self.term(p2, INT), INT)
+                    else:
+                        yield from self.divmod_(ast.FloorDiv(), x, self.term(p2, INT), s2, e)
             else:
                 raise Outside("int operator %s" % type(op).__name__)
             return
